@@ -47,7 +47,8 @@ def docJson (d : Doc) : Json :=
     ++ opt "seqRange" (d.seqRange.map jPair)
     ++ opt "idxRange" (d.idxRange.map jPair)
     ++ (match d.kind with
-        | .descriptor | .event => [("keys", jStrs d.keys)]
+        | .descriptor => [("keys", jStrs d.keys), ("extKeys", jStrs d.extKeys)]
+        | .event => [("keys", jStrs d.keys)]
         | _ => [])
     ++ (match d.kind with
         | .event => [("data", jList jKV d.data)]
